@@ -95,7 +95,7 @@ EXPORT void fft64_vmp_apply_dft_to_dft_avx(const MODULE* module,                
 
       reim4_extract_1blk_from_contiguous_reim_avx(m, row_max, blk_i, (double*)extracted_blk, (double*)a_dft);
       // apply mat2cols
-      for (uint64_t col_i = 0; col_i < col_max - 1; col_i += 2) {
+      for (uint64_t col_i = 0; col_i + 1 < col_max; col_i += 2) {
         uint64_t col_offset = col_i * (8 * nrows);
         reim4_vec_mat2cols_product_avx2(row_max, mat2cols_output, extracted_blk, mat_blk_start + col_offset);
 
@@ -121,6 +121,11 @@ EXPORT void fft64_vmp_apply_dft_to_dft_avx(const MODULE* module,                
   } else {
     for (uint64_t col_i = 0; col_i < col_max; col_i++) {
       double* pmat_col = mat_input + col_i * nrows * nn;
+      if (row_max == 0) {
+        // no input row: the product is zero (and nothing may be read from a_dft)
+        memset(vec_output + col_i * nn, 0, nn * sizeof(double));
+        continue;
+      }
       for (uint64_t row_i = 0; row_i < 1; row_i++) {
         reim_fftvec_mul(module->mod.fft64.mul_fft, vec_output + col_i * nn, vec_input + row_i * nn,
                         pmat_col + row_i * nn);
